@@ -30,7 +30,30 @@ def rule_tuple(r, style=None):
     raise ValueError(r["type"])
 
 
+def _scribble(rx, rl):
+    """After the model has been built the caller goes on using ITS OWN dictionaries and lists (here: overwrites them with
+    nonsense), as a script does that re-uses one dict for the next reaction.  A model keeps its own copies."""
+    for t in rx:
+        for d in (t[3],) + ((t[7],) if len(t) > 4 else ()):
+            if isinstance(d, dict):
+                for k in list(d):
+                    d[k] = "zz_scribbled" if isinstance(d[k], str) else 12345.678
+                d["zz_extra"] = 1.0
+        for lst in (t[0], t[1]) + ((t[5], t[6]) if len(t) > 4 else ()):
+            if isinstance(lst, list):
+                lst.append("zz_scribbled_species")
+    for t in rl:
+        if isinstance(t[1], dict):
+            for k in list(t[1]):
+                t[1][k] = "zz_scribbled = 1"
+
+
 def build_model(spec, route="ctor", cls=None, style=None, initialize=True):
+    m = _build_model(spec, route, cls, style, initialize)
+    return m
+
+
+def _build_model(spec, route="ctor", cls=None, style=None, initialize=True):
     """route: 'ctor' (constructor lists) | 'incremental' (create_reaction/create_rule/set_parameter) |
     'icd' (species only through initial_condition_dict)"""
     if cls is None:
@@ -50,8 +73,10 @@ def build_model(spec, route="ctor", cls=None, style=None, initialize=True):
     params = list(spec["params"].items())
     x0 = dict(spec.get("x0", {}))
     if route == "ctor":
-        return cls(species=list(spec["species"]), reactions=rx, parameters=params, rules=rl,
-                   initial_condition_dict=x0, initialize_model=initialize)
+        m = cls(species=list(spec["species"]), reactions=rx, parameters=params, rules=rl,
+                initial_condition_dict=x0, initialize_model=initialize)
+        _scribble(rx, rl)
+        return m
     if route == "icd":
         icd = {s: x0.get(s, 0) for s in spec["species"]}
         icd.update(x0)
@@ -74,6 +99,7 @@ def build_model(spec, route="ctor", cls=None, style=None, initialize=True):
             m.create_rule(t[0], dict(t[1]), rule_frequency=t[2])
         m.set_species({s: 0 for s in m.get_species_list() if s not in x0})
         m.set_species(x0)
+        _scribble(rx, rl)
         if initialize:
             m.py_initialize()
         return m
@@ -137,6 +163,7 @@ def _icd(cls, spec, rx, rl, params, icd, initialize):
         m.set_parameter(k, v)
     for t in rl:
         m.create_rule(t[0], dict(t[1]), rule_frequency=t[2])
+    _scribble(rx, rl)
     if initialize:
         m.py_initialize()
     return m
